@@ -1,7 +1,6 @@
 (* Conc/PipelineLiveGen3.v — the invariant of the whole system, part 3: the batches *)
 From Coq Require Import List Arith Bool Lia.
-From SKV Require Import Conc.Pipeline Conc.PipelineExplore Conc.PipelineSpec Conc.PipelineLiveCore Conc.PipelineLiveCore2
-  Conc.PipelineLiveCore3 Conc.PipelineLiveCore4 Conc.PipelineLiveGen.
+From SKV Require Import Conc.Pipeline Conc.PipelineExplore Conc.PipelineSpec Conc.PipelineLiveBase Conc.PipelineLiveGen.
 Import ListNotations.
 
 Lemma qf_gframe : forall c s s0 i x, GInv c s -> qhead s0 = qhead s -> logrel sameA (qlog s) (qlog s0) -> QF (put_thr s0 i x).
@@ -47,102 +46,3 @@ Proof.
 Qed.
 
 
-Lemma resg_gframe : forall c s s0 i x, GInv c s -> qtail s <= qtail s0 -> logrel sameR (qlog s) (qlog s0) -> RESG (put_thr s0 i x).
-Proof.
-  intros c s s0 i x HI Hh [_ Hl] p b Hb Hr. psimpl_in Hb. psimpl.
-  destruct (Hl _ _ Hb) as [b0 [Hb0 Ha]]. unfold sameR in Ha. rewrite Ha in Hr.
-  pose proof (g_res c s HI p b0 Hb0 Hr). lia.
-Qed.
-
-Lemma resg_gstep : forall c s i t l s', GInv c s -> thr_at s i t -> step_commit c s i t l = Some s' -> RESG s'.
-Proof.
-  intros c s i t l s' HI Ht H.
-  gstart c s i t l H HI Ht.
-  all: try exact (g_res c s HI).
-  all: try (eapply resg_gframe; try exact HI; psimpl; auto; try lia; logrel_tac).
-  (* LFailCompleted, twice: an error is sent only if nothing was sent before *)
-  all: try solve [ intros q b Hb Hr; psimpl_in Hb; psimpl; apply my_batch_inv in Hm as [Hm1 Hm2];
-    apply nth_error_set_nth_inv in Hb as [[-> ->]|[Hne Hb]]; [|apply (g_res c s HI q b Hb Hr)];
-    simpl in Hr; destruct (b_res p0) as [[|]|] eqn:E; try discriminate Hr; apply (g_res c s HI n p0 Hm2 E) ].
-  - (* LEnqStored *)
-    intros q b Hb Hr. psimpl_in Hb. psimpl.
-    apply nth_error_snoc_inv in Hb as [[_ Hb]|[_ ->]]; [apply (g_res c s HI q b Hb Hr)|discriminate Hr].
-  - (* LPubCompleted *)
-    intros q b Hb Hr. psimpl_in Hb. psimpl. destruct Hti as [_ [_ [_ Hp]]].
-    apply nth_error_set_nth_inv in Hb as [[-> ->]|[Hne Hb]]; [exact Hp|apply (g_res c s HI q b Hb Hr)].
-Qed.
-
-Lemma uniq_gframe : forall c s s0 i t x, GInv c s -> thr_at s i t -> thrs s0 = thrs s ->
-  length (qlog s) <= length (qlog s0) -> t_my x = t_my t -> UNIQ (put_thr s0 i x).
-Proof.
-  intros c s s0 i t x HI Ht Hth Hlen Hmy. destruct (g_uniq c s HI) as [U1 U2]. split.
-  - intros j tj p Hj Hp. psimpl. apply thr_at_put in Hj as [[-> ->]|[Hne Hj]].
-    + rewrite Hmy in Hp. pose proof (U1 i t p Ht Hp). lia.
-    + unfold thr_at in Hj. rewrite Hth in Hj. pose proof (U1 j tj p Hj Hp). lia.
-  - intros j1 j2 t1 t2 p H1 H2 Hp1 Hp2.
-    apply thr_at_put in H1 as [[-> ->]|[Hne1 H1]]; apply thr_at_put in H2 as [[-> ->]|[Hne2 H2]]; auto;
-      unfold thr_at in *; rewrite ?Hth in *; rewrite ?Hmy in *.
-    + apply (U2 i j2 t t2 p); auto.
-    + apply (U2 j1 i t1 t p); auto.
-    + apply (U2 j1 j2 t1 t2 p); auto.
-Qed.
-
-Lemma uniq_gstep : forall c s i t l s', GInv c s -> thr_at s i t -> step_commit c s i t l = Some s' -> UNIQ s'.
-Proof.
-  intros c s i t l s' HI Ht H.
-  gstart c s i t l H HI Ht.
-  all: try exact (g_uniq c s HI).
-  all: try solve [eapply uniq_gframe; try exact HI; try exact Ht; psimpl; rewrite ?app_length, ?set_nth_length; auto; lia].
-  (* LEnqStored: the new position is the old length of the log *)
-  specialize (Hls2 ltac:(discriminate)). destruct (g_uniq c s HI) as [U1 U2]. split.
-  - intros j tj p Hj Hp. psimpl. rewrite app_length. simpl. thr_cases Hj Hne.
-    + simpl in Hp. injection Hp as <-. lia.
-    + pose proof (U1 j tj p Hj Hp). lia.
-  - intros j1 j2 t1 t2 p H1 H2 Hp1 Hp2. thr_cases H1 Hne1; thr_cases H2 Hne2; auto; simpl in *.
-    + injection Hp1 as <-. pose proof (U1 j2 t2 _ H2 Hp2). lia.
-    + injection Hp2 as <-. pose proof (U1 j1 t1 _ H1 Hp1). lia.
-    + apply (U2 j1 j2 t1 t2 p); auto.
-Qed.
-
-Definition relF (b0 b' : pbatch) : Prop := b_res b' = Some false -> b_res b0 = Some false.
-
-Lemma err_gframe : forall c s s0 i t x, GInv c s -> thr_at s i t -> thrs s0 = thrs s ->
-  logrel relF (qlog s) (qlog s0) -> t_my x = t_my t -> (t_err t = true -> t_err x = true) -> ERR (put_thr s0 i x).
-Proof.
-  intros c s s0 i t x HI Ht Hth [_ Hl] Hmy He j tj p b Hj Hp Hb Hr. psimpl_in Hb.
-  destruct (Hl _ _ Hb) as [b0 [Hb0 Ha]]. specialize (Ha Hr).
-  apply thr_at_put in Hj as [[-> ->]|[Hne Hj]].
-  - rewrite Hmy in Hp. apply He. apply (g_err c s HI i t p b0); auto.
-  - unfold thr_at in Hj. rewrite Hth in Hj. apply (g_err c s HI j tj p b0); auto.
-Qed.
-
-Ltac relF_refl := solve [ unfold relF; intros; simpl in *; auto ].
-Ltac logrelF_tac :=
-  psimpl;
-  first [ apply logrel_refl; relF_refl
-        | match goal with Hr8 : _ \/ _ |- _ => eapply logrel_ret; [relF_refl | relF_refl | exact Hr8] end
-        | match goal with Hm : my_batch _ _ = Some _ |- _ => eapply logrel_my; [ relF_refl | exact Hm | relF_refl ] end
-        | match goal with Hm : get_b _ _ = Some _ |- _ => eapply logrel_getb; [ relF_refl | exact Hm | relF_refl ] end ].
-
-Lemma err_gstep : forall c s i t l s', GInv c s -> thr_at s i t -> step_commit c s i t l = Some s' -> ERR s'.
-Proof.
-  intros c s i t l s' HI Ht H.
-  gstart c s i t l H HI Ht.
-  all: try exact (g_err c s HI).
-  all: try solve [eapply err_gframe; try exact HI; try exact Ht; psimpl; auto; try logrelF_tac].
-  (* LFailCompleted, twice *)
-  all: try solve [ intros j tj q b Hj Hq Hb Hr; psimpl_in Hb; apply my_batch_inv in Hm as [Hm1 Hm2];
-    thr_cases Hj Hne; [ reflexivity | ];
-    apply nth_error_set_nth_inv in Hb as [[-> ->]|[Hne2 Hb]];
-    [ exfalso; apply Hne; destruct (g_uniq c s HI) as [_ U2]; apply (U2 j i tj t n Hj Ht Hq Hm1)
-    | apply (g_err c s HI j tj q b Hj Hq Hb Hr) ] ].
-  - (* LEnqStored *)
-    intros j tj q b Hj Hq Hb Hr. psimpl_in Hb. specialize (Hls2 ltac:(discriminate)).
-    apply nth_error_snoc_inv in Hb as [[Hlt Hb]|[_ ->]]; [|discriminate Hr].
-    thr_cases Hj Hne.
-    + simpl in Hq. injection Hq as <-. lia.
-    + apply (g_err c s HI j tj q b Hj Hq Hb Hr).
-  - (* LPubCompleted: Ok is sent only if nothing was sent before *)
-    eapply err_gframe; try exact HI; try exact Ht; psimpl; auto.
-    eapply logrel_getb; [relF_refl | exact Hm | ]. unfold relF. simpl. destruct (b_res p0) as [[|]|]; auto; discriminate.
-Qed.
